@@ -16,6 +16,7 @@ import (
 )
 
 func TestMain(m *testing.M) {
+	go processDeadlockWatch()
 	code := m.Run()
 	evid.FlushAll()
 	os.Exit(code)
@@ -103,6 +104,74 @@ func watchDeadlock(t testing.TB, id string, desc any) (stop func()) {
 		}
 	}()
 	return func() { close(done) }
+}
+
+// processDeadlockWatch is the same idea for every test of the binary, without a
+// per-case hook: when a synctest bubble exists and, over four dumps taken 10 s
+// apart on the real clock, no goroutine of the process is running or runnable
+// and the (normalised) stacks are identical, a goroutine inside the bubble waits
+// on a mutex that nobody will release (all-durably-blocked bubbles either advance
+// the fake clock or make synctest panic, so they never look like this). The test
+// binary cannot unwind the bubble, so the process reports the failure and exits;
+// the descriptor carries the rapid seed of this shard so that the replay command
+// re-runs the same generated cases.
+func processDeadlockWatch() {
+	prev, same := "", 0
+	for {
+		time.Sleep(10 * time.Second)
+		d := allStacks()
+		n := stripAges(d)
+		if stuck(d) && nonDurableInBubble(d) && n == prev {
+			same++
+		} else {
+			same = 0
+		}
+		prev = n
+		if same < 3 {
+			continue
+		}
+		id, run, seed, checks := "C00", "", "", ""
+		for i, a := range os.Args {
+			if (a == "-test.run" || a == "--test.run") && i+1 < len(os.Args) {
+				run = os.Args[i+1]
+			}
+			if v, ok := strings.CutPrefix(a, "-test.run="); ok {
+				run = v
+			}
+			if v, ok := strings.CutPrefix(a, "-rapid.seed="); ok {
+				seed = v
+			}
+			if v, ok := strings.CutPrefix(a, "-rapid.checks="); ok {
+				checks = v
+			}
+		}
+		if m := regexp.MustCompile(`C\d\d`).FindString(run); m != "" {
+			id = m
+		}
+		desc := map[string]any{"deadlock": true, "test_run": run, "rapid_seed": seed, "rapid_checks": checks}
+		if dir := os.Getenv("VERIF_OUT"); dir != "" {
+			shard := os.Getenv("VERIF_SHARD")
+			if shard == "" {
+				shard = "0"
+			}
+			j, _ := json.MarshalIndent(map[string]any{"property": id, "case": desc, "message": "deadlock: every goroutine of the process is blocked for ever inside a generated case (a call on the connection never returns)"}, "", " ")
+			os.WriteFile(filepath.Join(dir, "fail-"+id+"."+shard+".json"), j, 0o644)
+		}
+		fmt.Printf("--- FAIL: %s deadlock: every goroutine is blocked and cannot be woken (30 s without a runnable goroutine, identical stacks)\ncase: %+v\n%s\n", id, desc, d)
+		evid.FlushAll()
+		os.Exit(1)
+	}
+}
+
+// nonDurableInBubble: some goroutine of a bubble is blocked in a way synctest does
+// not count as durable (a sync.Mutex, typically) - the state that freezes the fake clock.
+func nonDurableInBubble(dump string) bool {
+	for _, m := range bubbleGoroutine.FindAllStringSubmatch(dump, -1) {
+		if strings.Contains(m[1], "synctest bubble") && !strings.Contains(m[1], "(durable)") {
+			return true
+		}
+	}
+	return false
 }
 
 func allStacks() string {
